@@ -1983,6 +1983,127 @@ fn cut_family(out: &mut Vec<String>) {
     }
 }
 
+// ------------------------------------------------------------------------------------------------
+// CHAIN family: long operator chains on the arithmetic evaluator
+// ------------------------------------------------------------------------------------------------
+// evaluate_expression splits its text at ONE operator position and evaluates each side once, so a chain of n terms costs
+// 2n - 1 calls (C05.evalCalls_linear).  A variant that evaluates a side twice, or retries the whole text at the other precedence
+// level after a failure, is exponential in the number of terms: invisible below ~12 terms, beyond any watchdog at 20..30.  The
+// family drives V (the only entry of the property that reaches evaluate_expression: the GRL parsers keep an expression as text,
+// it is evaluated when a rule fires, which is not an entry of C05) with chains of 8..120 terms - and a few up to the 4 KiB
+// bound - over every mix of the five operators, with operands that do not evaluate (unknown field, nothing at all = leading /
+// trailing / doubled operator, a parenthesised group, a malformed number, an unterminated quote, a multi-byte name), operands
+// that evaluate to something apply_operator rejects (boolean, non-numeric string) and signed operands (`2 * -3`), at the left
+// end, in the middle, at the right end, at both ends, everywhere.  Every case takes microseconds (the 4 KiB ones milliseconds)
+// on the unchanged tree; check.py's per-case deadline (CASE_TIMEOUT) turns a blow-up into `hang` with the input.
+const CHAIN_OPS: [&str; 5] = ["+", "-", "*", "/", "%"];
+/// number of terms; the longer chains first: an exponential evaluator is reported by the first few (then the batch is cut
+/// short, see check.py MAX_KILLERS) instead of crawling through hundreds of 16-term cases that take seconds each
+const CHAIN_TERMS: [usize; 7] = [30, 60, 120, 20, 16, 12, 8];
+const CHAIN_GOOD: [&str; 6] = ["1", "2", "I", "F", "2.5", "Order.quantity"];
+const CHAIN_BAD: [&str; 11] = ["Missing.x", "", "(1 + 2)", "1e", "\"x", "B", "S", "-3", "+3", "1 2", "\u{e9}.\u{65e5}"];
+const CHAIN_MIXES: usize = 32;
+
+/// the operator at position `i` of an `m`-operator chain under mix number `mix` (`salt`: the three pseudo-random mixes)
+fn chain_op(mix: usize, i: usize, m: usize, salt: u64) -> &'static str {
+    match mix {
+        0..=4 => CHAIN_OPS[mix],
+        5..=24 => {
+            // the 20 ordered pairs of different operators, alternating
+            let (a, b) = ((mix - 5) / 4, (mix - 5) % 4);
+            let b = if b >= a { b + 1 } else { b };
+            CHAIN_OPS[if i % 2 == 0 { a } else { b }]
+        }
+        25 => CHAIN_OPS[i % 5],
+        26 => CHAIN_OPS[4 - i % 5],
+        // a block of one precedence level, then the other
+        27 => if i < m / 2 { CHAIN_OPS[i % 2] } else { CHAIN_OPS[2 + i % 3] },
+        28 => if i < m / 2 { CHAIN_OPS[2 + i % 3] } else { CHAIN_OPS[i % 2] },
+        _ => {
+            let mut x = salt ^ ((mix as u64) << 32) ^ (i as u64).wrapping_mul(0x9E37_79B9_7F4A_7C15);
+            x ^= x >> 29;
+            x = x.wrapping_mul(0xBF58_476D_1CE4_E5B9);
+            x ^= x >> 32;
+            CHAIN_OPS[(x % 5) as usize]
+        }
+    }
+}
+
+/// `t0 op t1 op … t(n-1)`; `sep` = 0: one blank around every operator, 1: none, 2: two blanks in front, none behind
+fn chain_text(terms: &[&str], mix: usize, sep: usize, salt: u64) -> String {
+    let mut s = String::new();
+    let m = terms.len() - 1;
+    for (i, t) in terms.iter().enumerate() {
+        if i > 0 {
+            let op = chain_op(mix, i - 1, m, salt);
+            match sep {
+                0 => { s.push(' '); s.push_str(op); s.push(' '); }
+                1 => s.push_str(op),
+                _ => { s.push_str("  "); s.push_str(op); }
+            }
+        }
+        s.push_str(t);
+    }
+    s
+}
+
+fn chain_family(rng: &mut Rng, out: &mut Vec<String>) {
+    let salt = rng.next();
+    let mut k = 0usize; // rotates the good operands and the separators
+    for n in CHAIN_TERMS {
+        for mix in 0..CHAIN_MIXES {
+            // the model's prediction is quadratic in the length of the text (0.3 ms at 30 terms, 4 ms at 120): the longest chains get
+            // every second pair of operators and all the irregular mixes
+            if n >= 60 && !(mix % 3 == 1 || mix >= 25) {
+                continue;
+            }
+            let good: Vec<&str> = (0..n).map(|i| CHAIN_GOOD[(i + mix) % CHAIN_GOOD.len()]).collect();
+            let mut push = |terms: &[&str], k: &mut usize| {
+                let s = chain_text(terms, mix, *k % 3, salt);
+                *k += 1;
+                if s.len() <= 4096 {
+                    out.push(mk_case("V", &s));
+                }
+            };
+            push(&good, &mut k);
+            for (bi, bad) in CHAIN_BAD.iter().copied().enumerate() {
+                if n >= 120 && !matches!(bi, 0 | 1 | 2 | 7) {
+                    continue;
+                }
+                // left end, middle, right end, both ends
+                for pos in [vec![0], vec![n / 2], vec![n - 1], vec![0, n - 1]] {
+                    let mut t = good.clone();
+                    for p in pos {
+                        t[p] = bad;
+                    }
+                    push(&t, &mut k);
+                }
+            }
+            // signed operands everywhere (`2 * -3 * -3 …`), everywhere but the first, and unknown fields everywhere
+            for (first, rest) in [("-3", "-3"), ("2", "-3"), ("2", "+ 3"), ("Missing.x", "Nope")] {
+                let t: Vec<&str> = (0..n).map(|i| if i == 0 { first } else { rest }).collect();
+                push(&t, &mut k);
+            }
+        }
+    }
+    // up to the 4 KiB bound of the quantifier: 500 / 1000 / 2047 one-byte terms (999 .. 4093 bytes); recursion depth = terms
+    // (the prediction costs ~0.25 s per 4 KiB case: a handful)
+    for (n, mixes) in [(500usize, &[2usize, 8, 25][..]), (1000, &[11][..]), (2047, &[0, 9][..])] {
+        for &mix in mixes {
+            for (first, rest, last) in [("1", "1", "1"), ("x", "1", "1"), ("", "1", "1"), ("1", "1", ""), ("1", "-3", "-3")] {
+                if n == 2047 && (rest != "1" || last.is_empty() || (mix == 0) != first.is_empty()) {
+                    continue;
+                }
+                let t: Vec<&str> = (0..n).map(|i| if i == 0 { first } else if i == n - 1 { last } else { rest }).collect();
+                let s = chain_text(&t, mix, if n == 1000 { 0 } else { 1 }, salt);
+                if s.len() <= 4096 {
+                    out.push(mk_case("V", &s));
+                }
+            }
+        }
+    }
+}
+
 fn gen(rng: &mut Rng, n: usize, _tier: &str) -> Vec<String> {
     let mut out = Vec::new();
     // exhaustive short strings over a tiny alphabet for the two most hazardous slicing kernels
@@ -2161,6 +2282,21 @@ fn gen(rng: &mut Rng, n: usize, _tier: &str) -> Vec<String> {
     gen3(rng, &mut out);
     // fixed count, no randomness, after every older stream (their cases stay unchanged)
     cut_family(&mut out);
+    // operator chains on the evaluator, the long ones first (last stream: everything above keeps its cases)
+    chain_family(rng, &mut out);
+    // a string literal still open at the very end of the text, ending in 0..3 backslashes (an escape with nothing behind it), for every
+    // entry with a literal scanner (seeded change C05-2 was caught by ONE random case, `"\`, under some seeds only)
+    for e in ["X", "Q", "QV", "V", "D", "NP", "A"] {
+        for pre in ["", "User.Name == ", "a == \"b\" && c == ", "NOT x == "] {
+            for q in ["\"", "'"] {
+                for body in ["", "abc", "a\\\"b", "\u{e9}"] {
+                    for k in 0..=3 {
+                        out.push(mk_case(e, &format!("{}{}{}{}", pre, q, body, "\\".repeat(k))));
+                    }
+                }
+            }
+        }
+    }
     out
 }
 
